@@ -1051,6 +1051,36 @@ Definition tr_InvokeTimeout_fill (rspPackage : go_requestf_ResponsePacket) (reqP
     let rspPackage := {| go_requestf_ResponsePacket_IVersion := go_requestf_ResponsePacket_IVersion rspPackage; go_requestf_ResponsePacket_CPacketType := go_requestf_ResponsePacket_CPacketType rspPackage; go_requestf_ResponsePacket_IRequestId := go_requestf_ResponsePacket_IRequestId rspPackage; go_requestf_ResponsePacket_IMessageType := go_requestf_ResponsePacket_IMessageType rspPackage; go_requestf_ResponsePacket_IRet := go_requestf_ResponsePacket_IRet rspPackage; go_requestf_ResponsePacket_SBuffer := go_requestf_ResponsePacket_SBuffer rspPackage; go_requestf_ResponsePacket_SResultDesc := (115%N :: (101%N :: (114%N :: (118%N :: (101%N :: (114%N :: (32%N :: (105%N :: (110%N :: (118%N :: (111%N :: (107%N :: (101%N :: (32%N :: (116%N :: (105%N :: (109%N :: (101%N :: (111%N :: (117%N :: (116%N :: (@nil N)))))))))))))))))))))) |} in
     Next rspPackage.
 
+(* tars/errors.go: func GetErrorCode *)
+Definition tr_GetErrorCode (err : bool) (err_code : Z) (err_is_tars : bool) : ctl unit Z :=
+  if (Bool.eqb err false)
+    then Return 0
+    else let ok := err_is_tars in
+    if (negb ok)
+    then Return 1
+    else Return err_code.
+
+Definition k_basef_TARSSERVERSUCCESS : Z := 0.
+(* struct github.com/TarsCloud/TarsGo/tars.Error *)
+Record go_tars_Error := { go_tars_Error_Code : Z;
+  go_tars_Error_Message : (list N) }.
+
+(* tars/servant.go: func ServantProxy.doInvoke, statements "if msg.Status != basef.TARSSERVERSUCCESS || msg.Resp.IRet != 0 {" .. "if msg.Status != basef.TARSSERVERSUCCESS || msg.Resp.IRet != 0 {" *)
+Definition tr_doInvoke_reply (rsp_ret : Z) (rsp_desc : list N) (msg_status : Z) (sprintf_ : list N -> Z -> list N) : ctl unit (go_error go_tars_Error) :=
+  if (if (negb (msg_status =? k_basef_TARSSERVERSUCCESS)) then true else (negb (rsp_ret =? 0)))
+    then let desc := rsp_desc in
+      bindc (if (go_bytes_eqb desc (@nil N))
+        then let desc := (sprintf_ (98%N :: (97%N :: (115%N :: (101%N :: (102%N :: (32%N :: (101%N :: (114%N :: (114%N :: (111%N :: (114%N :: (32%N :: (99%N :: (111%N :: (100%N :: (101%N :: (32%N :: (37%N :: (100%N :: (@nil N)))))))))))))))))))) rsp_ret) in
+          Next desc
+        else Next desc)
+      (fun desc : (list N) =>
+      if (if (negb (rsp_ret =? 0)) then (negb (rsp_ret =? 1)) else false)
+      then Return (GoErrVal {|
+      go_tars_Error_Code := rsp_ret;
+      go_tars_Error_Message := desc |})
+      else Return (@GoErrNew go_tars_Error desc))
+    else Next tt.
+
 (* tars/transport/tarsclient.go: func connection.recv, statements "currBuffer = append(currBuffer, buffer[:n]...)" .. "for {" *)
 Definition tr_cli_recv_chunk (fuel : nat) (buffer : (list N)) (currBuffer : (list N)) (n : Z) (parse_package : list N -> Z * Z) (out : list (list N)) : ctl ((list (list N)) * (list N)) (list (list N) * unit) :=
   if (go_slice_ok buffer 0 n) then (let currBuffer := currBuffer ++ (go_slice buffer 0 n) in
